@@ -7,6 +7,8 @@
 //!
 //! usage: mirisim <class> <seed> <from> <to>      class in {c02, c03, c08, c09}
 
+mod seq;
+
 use std::sync::atomic::{AtomicUsize, Ordering};
 use triomphe::{Arc, ArcUnion, HeaderSlice, HeaderWithLength, OffsetArc, ThinArc};
 
@@ -54,16 +56,16 @@ enum H {
 unsafe impl Send for H {}
 unsafe impl Sync for H {}
 
-struct Rng(u64);
+pub struct Rng(pub u64);
 impl Rng {
-    fn next(&mut self) -> u64 {
+    pub fn next(&mut self) -> u64 {
         self.0 = self.0.wrapping_add(0x9E37_79B9_7F4A_7C15);
         let mut z = self.0;
         z = (z ^ (z >> 30)).wrapping_mul(0xBF58_476D_1CE4_E5B9);
         z = (z ^ (z >> 27)).wrapping_mul(0x94D0_49BB_1331_11EB);
         z ^ (z >> 31)
     }
-    fn below(&mut self, n: u64) -> u64 {
+    pub fn below(&mut self, n: u64) -> u64 {
         self.next() % n
     }
 }
@@ -323,9 +325,25 @@ fn main() {
     let seed: u64 = a[2].parse().unwrap_or(1);
     let from: u64 = a[3].parse().unwrap_or(0);
     let to: u64 = a[4].parse().unwrap_or(1);
+    let mut stats = [0u64; 8];
+    if class <= 1 {
+        // injected panics are part of the workload: keep them off stderr
+        std::panic::set_hook(Box::new(|_| {}));
+    }
     for i in from..to {
         println!("BEGIN\tmiri-c{:02}\t{}", class, i);
-        scenario(class, seed.wrapping_mul(0x9E37_79B9).wrapping_add(i.wrapping_mul(0x1_0000_0001)));
+        let s = seed.wrapping_mul(0x9E37_79B9).wrapping_add(i.wrapping_mul(0x1_0000_0001));
+        if class <= 1 {
+            seq::scenario(s, class == 0, &mut stats);
+        } else {
+            scenario(class, s);
+        }
+    }
+    if class <= 1 {
+        println!(
+            "STATS\titerator_panics_armed={}\tlying_iterators={}\tconstructions_unwound={}\tuninit_constructions={}\tcallback_panics={}\tinto_thin_refusals={}",
+            stats[0], stats[1], stats[2], stats[3], stats[4], stats[5]
+        );
     }
     println!("RUN-OK\tscenarios={}", to - from);
 }
